@@ -31,6 +31,11 @@ def parse_flows(txt):
     return pairs
 
 
+def _opts(o, i):
+    o.reserved = (i % 3 == 1)
+    return o
+
+
 def run(ctx):
     seen = {}
     pending = []
@@ -69,7 +74,7 @@ def run(ctx):
                                  'valid': obs['valid']}, (src, fin, strict, 'choices')))
 
     n = ctx.budget(50, 2000)
-    srcs = FC.gen_sources(ctx, n, lambda i: Opts(sugar=(i % 4 == 0), max_bin=5, whole_rhs_cast=False))
+    srcs = FC.gen_sources(ctx, n, lambda i: _opts(Opts(sugar=(i % 4 == 0), max_bin=5, whole_rhs_cast=False), i))
     FC.run_functions(ctx, srcs, [(False, False), (True, False), (False, True), (True, True)], on_result=on_result,
                      check_op=None, strict_every=3)
     # flows check needs an empty valid string of length 3^0 = 1: patch requests
